@@ -429,7 +429,114 @@ func runConvPieces(pieces [][]byte, total int) (res convResult) {
 	}
 }
 
+// execConvPar: `conns` connections at the same time, each sending `rounds` requests whose reply depends on the body
+// (authentication: right or wrong code for ITS phone; one-piece multimedia upload: ITS multimedia id) and checking
+// every reply against its own request. Result "replies=<n> wrong=<k>".
+func execConvPar(c fw.Case) string {
+	conns, _ := strconv.Atoi(c.Args[0])
+	rounds, _ := strconv.Atoi(c.Args[1])
+	seed, _ := strconv.ParseUint(c.Args[2], 10, 64)
+	convStart()
+	convMu.Lock()
+	defer convMu.Unlock()
+	convCurMu.Lock()
+	convCur = &convRecorder{}
+	convCurMu.Unlock()
+	var wg sync.WaitGroup
+	var mu sync.Mutex
+	total, wrong := 0, 0
+	for k := 0; k < conns; k++ {
+		wg.Add(1)
+		go func(k int) {
+			defer wg.Done()
+			r := fw.NewRng(seed*7919 + uint64(k))
+			phone := []byte{0x05, 0x55, 0x00, 0x00, byte(k / 100), byte(k%100/10<<4 | k%10)}
+			ps := phoneStr(phone)
+			cn, err := dialConv()
+			if err != nil {
+				mu.Lock()
+				wrong++
+				mu.Unlock()
+				return
+			}
+			defer cn.Close()
+			// all requests are written back to back (the writers of the connections must overlap), then the replies
+			// are read and checked in order
+			var checks []func(b []byte) bool
+			var out []byte
+			for j := 0; j < rounds; j++ {
+				h := frames.H{Phone: phone, Serial: uint16(1000*k + j)}
+				var body []byte
+				if r.Bool() {
+					h.ID = 0x0102
+					want := byte(0)
+					body = []byte(ps)
+					if r.Bool() {
+						body = []byte(strings.Repeat("9", len(ps)))
+						want = 1
+					}
+					ser := h.Serial
+					checks = append(checks, func(b []byte) bool {
+						return len(b) == 5 && be(b[0:2]) == uint64(ser) && be(b[2:4]) == 0x0102 && b[4] == want
+					})
+				} else {
+					h.ID = 0x0801
+					id := []byte{byte(k), byte(j >> 8), byte(j), byte(r.Intn(256))}
+					body = append(append([]byte{}, id...), make([]byte, 32)...)
+					checks = append(checks, func(b []byte) bool { return len(b) >= 4 && bytes.Equal(b[0:4], id) })
+				}
+				out = append(out, frames.Build(h, body)...)
+			}
+			go func() {
+				for len(out) > 0 {
+					n := 700
+					if n > len(out) {
+						n = len(out)
+					}
+					if _, err := cn.Write(out[:n]); err != nil {
+						return
+					}
+					out = out[n:]
+				}
+			}()
+			buf := make([]byte, 65536)
+			var rest []byte
+			var replies [][]byte
+			_ = cn.SetReadDeadline(time.Now().Add(10 * time.Second))
+			for len(replies) < rounds {
+				n, err := cn.Read(buf)
+				if n > 0 {
+					var fs [][]byte
+					fs, rest = splitFrames(append(rest, buf[:n]...))
+					replies = append(replies, fs...)
+				}
+				if err != nil {
+					break
+				}
+			}
+			mu.Lock()
+			for j := 0; j < rounds; j++ {
+				total++
+				if j >= len(replies) {
+					wrong++
+					continue
+				}
+				_, b, ok := frames.Parse(replies[j])
+				if !ok || !checks[j](b) {
+					wrong++
+				}
+			}
+			mu.Unlock()
+		}(k)
+	}
+	wg.Wait()
+	return fmt.Sprintf("replies=%d wrong=%d", total, wrong)
+}
+
 func execConv(c fw.Case) string {
+	if c.Op == "convpar" {
+		return execConvPar(c)
+	}
 	writes, ws, ok := decodeConv(c.Args[0])
 	expect := make([]int, len(writes))
 	if ok {
@@ -695,6 +802,12 @@ func genC06(r *fw.Rng, tier string, emit func(fw.Case)) {
 		}
 		emit(fw.Case{Op: "convrace", Args: []string{encodeSession(ws)}})
 	}
+	// many connections at the same time, replies that depend on the request body
+	cp := [2]int{10, 400}
+	if tier == "thorough" {
+		cp = [2]int{16, 4000}
+	}
+	emit(fw.Case{Op: "convpar", Args: []string{strconv.Itoa(cp[0]), strconv.Itoa(cp[1]), strconv.Itoa(r.Intn(1000000))}})
 	// long conversation across the wrap of the 16-bit platform serial (65536 replies and a few more)
 	long := 65600
 	if tier == "thorough" {
